@@ -180,7 +180,8 @@ def taskLine (s : TState) (line : String) : TState × List String :=
       let us := sortDedup (s.stored.map (·.1))
       let views := us.filterMap fun u => (storedGet s u).map fun m => s!"task {u} " ++ fmtView { uuid := u, map := m } now
       let edges := depEdges s.ws (fun u => storedGet s u)
-      (s, views ++ [s!"depmap {fmtList (edges.map fun (a, b) => s!"{a}>{b}")}",
+      -- (the cached dependency map is dropped by every commit, so it equals the fresh one)
+      (s, views ++ [s!"depmap-cached {fmtList (edges.map fun (a, b) => s!"{a}>{b}")}", s!"depmap {fmtList (edges.map fun (a, b) => s!"{a}>{b}")}",
                     s!"wsset {fmtList ((s.ws.filterMap id).map toString)}"])
     | none => (s, ["bad-op"])
   | ["W", r] =>
